@@ -55,6 +55,8 @@ TConnEnd == /\ Ev("ConnEnd") /\ Adv /\ stage \in {"closed", "idle"} /\ gTcp = 0 
             /\ (R.established /\ stage = "closed" /\ random # NoRandom) => R.client_random = random.hex
             /\ R.responded => (verdict = "allow" /\ requests > 0)
             /\ (R.must_respond /\ stage = "closed" /\ verdict = "allow") => R.responded
+            \* a denied connection is dropped, not kept: the client (which keeps probing) saw it closed by the endpoint
+            /\ (R.established /\ verdict = "deny") => R.peer_closed
             /\ stage' = "idle" /\ peer' = "" /\ random' = NoRandom /\ verdict' = "none" /\ requests' = 0
             /\ hello' = NoHello /\ fed' = 0 /\ taken' = NoRandom
             /\ UNCHANGED << rulesOn, gSessions, gTcp >>
